@@ -5,7 +5,7 @@ from __future__ import annotations
 import ast
 from pathlib import Path
 
-from lcmsa.alg import METHODS, first_difference, lib_op, norm
+from lcmsa.alg import METHODS, _short, first_difference, lib_op, norm
 from lcmsa.core import AnalysisError, callee_name, is_term, walk
 from lcmsa.report import Ctx, rule
 
@@ -229,6 +229,59 @@ def compare(ctx: Ctx, actual_q: str, ref_name: str, what: str, *, decorated=Fals
                f"{what}: decorator differs: {first_difference(da, dr)}", lhs=mfa, rhs=mfr)
 
 
+def _soft_verdict(ctx, prog, key, where, what, pa, pr, ga, gr, nf):
+    """SOFT comparison: pieces are matched by equal normal form first, then by label; only
+    atomic differences (constant / operator / library function / keyword / variable / dropped
+    effect) on structurally identical pieces are reported.  Anything else: no verdict."""
+    na = [(l, nf(t, False)) for l, t in pa]
+    nr = [(l, nf(t, True)) for l, t in pr]
+    na.append(("guards", tuple((tuple(nf(c, False) for c in conds if c[0] != "in-loop"), _exc_class(e)) for conds, e in ga)))
+    nr.append(("guards", tuple((tuple(nf(c, True) for c in conds if c[0] != "in-loop"), _exc_class(e)) for conds, e in gr)))
+    used = set()
+    pairs = []
+    rest_a = []
+    for l, a in na:
+        j = next((j for j, (_l2, r) in enumerate(nr) if j not in used and r == a), None)
+        if j is None:
+            rest_a.append((l, a))
+        else:
+            used.add(j)
+    rest_r = [(l, r) for j, (l, r) in enumerate(nr) if j not in used]
+    by_label = {}
+    for l, r in rest_r:
+        by_label.setdefault(_kind_of(l), []).append((l, r))
+    diffs, structural = [], 0
+    for l, a in rest_a:
+        cands = by_label.get(_kind_of(l), [])
+        best = None
+        for i, (l2, r) in enumerate(cands):
+            d = atomic_diffs(a, r, l)
+            if d is not None and (best is None or len(d) < len(best[1])):
+                best = (i, d)
+        if best is None:
+            structural += 1
+        else:
+            cands.pop(best[0])
+            diffs += best[1]
+    leftover = sum(len(v) for v in by_label.values())
+    if not rest_a and not leftover:
+        ctx.ob(key, True, where, f"{what}: equal to the reviewed form (all {len(na)} pieces)", lhs="", rhs="")
+    elif structural or (leftover and not diffs):
+        ctx.count("restructured_not_compared")
+        ctx.ob(key, True, where, f"{what}: written differently from the reviewed form ({structural + leftover} pieces restructured); "
+               "no conclusion is drawn from the comparison -- the dataflow obligations decide", nontrivial=False)
+    else:
+        uniq = list(dict.fromkeys(diffs))
+        ctx.ob(key, False, where, f"{what}: same structure as the reviewed form but {len(uniq)} atomic deviation(s): " + "; ".join(uniq[:4]),
+               lhs="; ".join(uniq[:8]), rhs="reviewed form")
+
+
+def _kind_of(label):
+    import re
+
+    return re.sub(r"#\d+|\d+", "#", label)
+
+
 def _exc_class(t):
     if t[0] == "call":
         n = callee_name(t) or (t[1][1] if t[1][0] in ("class",) else repr(t[1][:2]))
@@ -330,6 +383,16 @@ def _free_names(fnode):
     return sorted(loads - bound)
 
 
+def resort_caps(t):
+    """Captured values of reified closures in a canonical order (after all renamings)."""
+    if not isinstance(t, tuple):
+        return t
+    t = tuple(resort_caps(x) if isinstance(x, tuple) else x for x in t)
+    if len(t) == 3 and t[0] == "closure" and isinstance(t[2], tuple) and all(isinstance(c, tuple) and c and c[0] == "cap" for c in t[2]):
+        return ("closure", t[1], tuple(sorted(t[2], key=repr)))
+    return t
+
+
 def strip_messages(t):
     """Error-message texts are not behaviour: replace them by a placeholder."""
     if not isinstance(t, tuple):
@@ -359,7 +422,7 @@ def _is_exception(f):
     return name.endswith("Error") or name.endswith("Exception")
 
 
-def compare_factory(ctx: Ctx, actual_q: str, ref_name: str, what: str):
+def compare_factory(ctx: Ctx, actual_q: str, ref_name: str, what: str, *, soft: bool = False):
     """Factory + the closures it defines, paired in definition order."""
     prog = ctx.prog
     ensure_ref(prog)
@@ -407,49 +470,216 @@ def compare_factory(ctx: Ctx, actual_q: str, ref_name: str, what: str):
         return tuple(canon(x, idx, is_ref) if isinstance(x, tuple) else x for x in t)
 
     def prep(t, idx, is_ref):
-        t = prog.expand(t)
+        if not soft:
+            t = prog.expand(t)  # plumbing functions are compared as written (helpers are compared on their own)
         t = reify_closures(prog, t)
         t = strip_messages(canon(t, idx, is_ref))
-        return _retarget(prog, t, ia.module) if is_ref else t
+        return resort_caps(_retarget(prog, t, ia.module) if is_ref else t)
 
-    def pieces(frame, q, closures, tag):
+    def side_effects(frame, q):
+        """Expression statements (calls executed for their effect) and in-place changes of parameters."""
+        out = []
+        eff = tuple(t for conds, t, _n in frame.effects if not _is_logging(t) and not _is_append_to_local(t, frame))
+        out.append(("effect statements", ("tuple", eff)))
+        for pname in frame.params:
+            v = frame.env.get(pname)
+            if v is not None and v != ("param", q, pname) and any(x[0] in ("setattr", "setitem", "mut") for x in walk(v)):
+                out.append((f"in-place update of parameter #{frame.params.index(pname) + 1}", v))
+        return out
+
+    def pieces(frame, q, closures, tag, info):
         out = [("factory result", frame.ret), *[(f"factory {l}", t) for l, t in _loop_pieces(prog, q)]]
+        out += [(f"factory {l}", t) for l, t in side_effects(frame, q)]
+        if info.parent is None and info.cls is None and info.node.decorator_list:
+            dec = prog.module_frame(info.module).env.get(info.node.name)
+            if dec is not None:
+                out.append(("decorators", _mask_func(dec, q)))
         guards = [(conds, e) for conds, e, _n in frame.raises]
         for i, c in enumerate(closures):
             cf = prog.closure_frame(c)
             cq = prog.closures[c][0].qualname
             out.append((f"closure {i + 1} result", cf.ret))
             out += [(f"closure {i + 1} {l}", t) for l, t in _loop_pieces(prog, cq)]
+            out += [(f"closure {i + 1} {l}", t) for l, t in side_effects(cf, cq)]
             guards += [(conds, e) for conds, e, _n in cf.raises]
         return out, guards
 
-    pa, ga = pieces(fa, actual_q, ca, "a")
-    pr, gr = pieces(fr, ref_q, cr, "r")
+    pa, ga = pieces(fa, actual_q, ca, "a", ia)
+    pr, gr = pieces(fr, ref_q, cr, "r", ir)
     ctx.count("kernels")
+    if soft:
+        _soft_verdict(ctx, prog, key, where, what, pa, pr, ga, gr, lambda t, is_ref: norm(prep(t, idx_a if not is_ref else idx_r, is_ref)))
+        return
     if [l for l, _ in pa] != [l for l, _ in pr]:
         ctx.undecided(key, f"{what}: loop structure / loop-carried names differ from the reference", where)
         return
     bad = None
     vocab = True
+    total_sites, total_size = 0, 0
     for (label, ta), (_l, tr) in zip(pa, pr, strict=True):
         ra, rr = prep(ta, idx_a, False), prep(tr, idx_r, True)
         a, r = norm(ra), norm(rr)
         vocab = vocab and in_vocab(ra)
-        if a != r and bad is None:
-            bad = (label, first_difference(a, r, label), ra, rr)
+        if a != r:
+            n_sites, sz = diff_sites(a, r)
+            total_sites += n_sites
+            total_size += sz
+            if bad is None:
+                bad = (label, first_difference(a, r, label), ra, rr)
     na_g = [(tuple(norm(prep(c, idx_a, False)) for c in conds if c[0] != "in-loop"), _exc_class(e)) for conds, e in ga]
     nr_g = [(tuple(norm(prep(c, idx_r, True)) for c in conds if c[0] != "in-loop"), _exc_class(e)) for conds, e in gr]
-    if bad is None and na_g != nr_g:
-        d = next((f"guard {i + 1}: {first_difference(x, y, 'condition')}" for i, (x, y) in enumerate(zip(na_g, nr_g, strict=False)) if x != y),
-                 f"{len(na_g)} raise sites vs {len(nr_g)} in the reference")
-        bad = ("guards", d, str(na_g)[:300], str(nr_g)[:300])
+    if na_g != nr_g:
+        n_sites, sz = diff_sites(tuple(na_g), tuple(nr_g))
+        total_sites += n_sites
+        total_size += sz
+        if bad is None:
+            d = next((f"guard {i + 1}: {first_difference(x, y, 'condition')}" for i, (x, y) in enumerate(zip(na_g, nr_g, strict=False)) if x != y),
+                     f"{len(na_g)} raise sites vs {len(nr_g)} in the reference")
+            bad = ("guards", d, str(na_g)[:300], str(nr_g)[:300])
     if bad is None:
-        ctx.ob(key, True, where, f"{what}: function, closures and guards equal the reference form",
+        ctx.ob(key, True, where, f"{what}: function, closures, effects and guards equal the reference form",
                lhs=fa.ret, rhs="reference " + ref_name)
-    elif vocab:
-        ctx.ob(key, False, where, f"{what}: {bad[0]} differs from the reference form at {bad[1]}", lhs=bad[2], rhs=bad[3])
-    else:
+    elif not vocab:
         ctx.undecided(key, f"{what}: {bad[0]} differs ({bad[1]}) but uses constructs outside the vocabulary", where)
+    elif soft and not _local_difference(total_sites, total_size):
+        ctx.undecided(key, f"{what}: the function was restructured ({total_sites} differing sites, first: {bad[0]} at {bad[1]}); "
+                      "its dataflow obligations decide the property, this comparison does not", where)
+    else:
+        ctx.ob(key, False, where, f"{what}: {bad[0]} differs from the reference form at {bad[1]}", lhs=bad[2], rhs=bad[3])
+
+
+def diff_sites(a, b):
+    """(number of minimal differing sub-term sites, total size of the differing sub-terms)."""
+    if a == b:
+        return 0, 0
+    if isinstance(a, tuple) and isinstance(b, tuple) and len(a) == len(b) and len(a) > 0 and \
+            (not isinstance(a[0], str) or a[0] == b[0]):
+        n = sz = 0
+        for x, y in zip(a, b, strict=True):
+            if x != y:
+                k, s_ = diff_sites(x, y) if isinstance(x, tuple) and isinstance(y, tuple) else (1, 1)
+                n += k
+                sz += s_
+        return n, sz
+    return 1, max(_size(a), _size(b))
+
+
+def _size(t):
+    if not isinstance(t, tuple):
+        return 1
+    return 1 + sum(_size(x) for x in t)
+
+
+LEAF_TAGS = {"const", "param", "glob", "func", "class", "bv", "loopvar", "carried", "loopout", "qsel", "msg"}
+
+
+def atomic_diffs(a, b, path="", out=None):
+    """Differences of two normal forms that are *atomic*: a constant, an operator, a library
+    function, a keyword of a call, a variable.  Returns the list, or None if the two forms
+    differ structurally somewhere (different construct / arity): then nothing is concluded."""
+    out = [] if out is None else out
+    if a == b:
+        return out
+    ta, tb = is_term(a), is_term(b)
+    if ta and tb:
+        if a[0] in LEAF_TAGS and b[0] in LEAF_TAGS:
+            if a[0] == b[0] or {a[0], b[0]} <= {"glob", "func"} or {a[0], b[0]} <= {"param", "carried", "loopout", "loopvar", "bv"}:
+                out.append(f"{path}: {_short(a)} instead of {_short(b)}")
+                return out
+            return None
+        if a[0] != b[0]:
+            return None
+        if a[0] == "op" and len(a) == 5 and len(b) == 5:
+            if a[1] != b[1]:
+                out.append(f"{path}: operation {a[1]} instead of {b[1]}")
+                return out if (a[2:] == b[2:] or atomic_diffs(a[2:], b[2:], path + "." + a[1], []) is not None) else None
+            da, db = dict(a[2]), dict(b[2])
+            for k in sorted(set(da) | set(db)):
+                if k not in da:
+                    out.append(f"{path}.{a[1]}: argument {k}= is missing")
+                elif k not in db:
+                    out.append(f"{path}.{a[1]}: extra argument {k}=")
+                elif atomic_diffs(da[k], db[k], f"{path}.{a[1]}({k})", out) is None:
+                    return None
+            if atomic_diffs(a[3], b[3], path + "." + a[1], out) is None or atomic_diffs(a[4], b[4], path + "." + a[1], out) is None:
+                return None
+            return out
+        if a[0] == "call" and len(a) == 4 and len(b) == 4:
+            if atomic_diffs(a[1], b[1], path + "/callee", out) is None or atomic_diffs(a[2], b[2], path + "/args", out) is None:
+                return None
+            ka, kb = dict((k, v) for k, v in a[3] if k is not None), dict((k, v) for k, v in b[3] if k is not None)
+            name = (a[1][1] if a[1][0] in ("glob", "func", "class") else "call").rsplit(".", 1)[-1]
+            for k in sorted(set(ka) | set(kb)):
+                if k not in ka:
+                    out.append(f"{path}/{name}: keyword {k}= is missing")
+                elif k not in kb:
+                    out.append(f"{path}/{name}: extra keyword {k}=")
+                elif atomic_diffs(ka[k], kb[k], f"{path}/{name}({k})", out) is None:
+                    return None
+            sa, sb = [v for k, v in a[3] if k is None], [v for k, v in b[3] if k is None]
+            if len(sa) != len(sb):
+                out.append(f"{path}/{name}: {len(sa)} ** arguments instead of {len(sb)}")
+                return out
+            for x, y in zip(sa, sb, strict=True):
+                if atomic_diffs(x, y, f"{path}/{name}(**)", out) is None:
+                    return None
+            return out
+        if a[0] in ("cmp", "binop", "unop", "boolop") and len(a) == len(b) and a[1] != b[1]:
+            out.append(f"{path}: operator {a[1]} instead of {b[1]}")
+            return out if atomic_diffs(a[2:], b[2:], path, out) is not None else None
+        if a[0] == "tuple" and len(a) == 2 and len(b) == 2 and path.endswith("effect statements") and len(a[1]) < len(b[1]):
+            # effect statements: a dropped call
+            it = iter(b[1])
+            if all(any(x == y for y in it) for x in a[1]):
+                out.append(f"{path}: {len(b[1]) - len(a[1])} effect statement(s) of the reviewed form are missing")
+                return out
+            return None
+        if a[0] == "poly" and b[0] == "poly":
+            out.append(f"{path}: arithmetic differs")
+            return out if len(a[1]) == len(b[1]) else None
+    if isinstance(a, tuple) and isinstance(b, tuple):
+        if len(a) != len(b):
+            return None
+        for i, (x, y) in enumerate(zip(a, b, strict=True)):
+            if x == y:
+                continue
+            if isinstance(x, tuple) and isinstance(y, tuple):
+                tag = a[0] if ta and isinstance(a[0], str) else ""
+                if atomic_diffs(x, y, f"{path}/{tag}" if tag else path, out) is None:
+                    return None
+            elif isinstance(x, tuple) or isinstance(y, tuple):
+                return None
+            else:
+                out.append(f"{path}: {x!r} instead of {y!r}")
+        return out
+    out.append(f"{path}: {a!r} instead of {b!r}")
+    return out
+
+
+def _local_difference(n_sites, size):
+    """A deviation that looks like an edit (few small sites), not like a restructuring.
+    One textual edit of the source shows up at every place the edited value was inlined, so
+    the number of sites is generous; the size bound separates edits from rewrites."""
+    return n_sites <= 40 and size <= 400
+
+
+def _is_logging(t):
+    return t[0] == "call" and t[1][0] == "attr" and t[1][2] in ("info", "debug", "warning", "error", "setLevel") \
+        or callee_name(t) in ("logging.basicConfig",)
+
+
+def _is_append_to_local(t, frame):
+    """Mutating method calls on locals are already part of the value graph (mut nodes)."""
+    return t[0] == "call" and t[1][0] == "attr" and t[1][2] in (
+        "append", "extend", "update", "add", "pop", "insert", "remove", "setdefault", "clear", "sort", "reverse")
+
+
+def _mask_func(t, q):
+    if not isinstance(t, tuple):
+        return t
+    if t == ("func", q):
+        return ("func", "<this function>")
+    return tuple(_mask_func(x, q) if isinstance(x, tuple) else x for x in t)
 
 
 def _all_params(node):
@@ -463,11 +693,11 @@ def _all_params(node):
     return out
 
 
-def factory_rule(name, items):
+def factory_rule(name, items, *, soft=False):
     @rule(name)
     def r(ctx: Ctx):
         for actual_q, ref_name, what in items:
-            compare_factory(ctx, actual_q, ref_name, what)
+            compare_factory(ctx, actual_q, ref_name, what, soft=soft)
         ctx.floor("kernels", len(items))
 
     return r
@@ -653,3 +883,35 @@ ker_util = factory_rule("KER.util", gen("input_processing.util", [
     ("get_gridspecs", "gridspecs in canonical order"),
     ("get_grids", "grids in canonical order"),
 ]))
+
+
+# ---------------------------------------------------------------------------------------
+# plumbing functions, SOFT mode: a deviation confined to a few small sites (what a slip or a
+# mutation looks like) is refuted; a restructuring is 'undecided' here and left to the
+# dataflow obligations (R2, R3, R13, R15, ...), which do not depend on the code's shape.
+# ---------------------------------------------------------------------------------------
+soft_entry = factory_rule("KERS.entry", gen("entry_point", [
+    ("get_lcm_function", "per-period lists, shifts, partial bindings, target dispatch"),
+    ("create_compute_conditional_continuation_value", "masked max over the product of continuous choices"),
+    ("create_compute_conditional_continuation_policy", "masked arg-max over the product of continuous choices"),
+]), soft=True)
+soft_solve = factory_rule("KERS.solve", gen("solve_brute", [
+    ("solve", "backward loop"), ("solve_continuous_problem", "spacemap evaluation"),
+]), soft=True)
+soft_simulate = factory_rule("KERS.simulate", gen("simulate", [
+    ("simulate", "forward simulation loop"), ("solve_continuous_problem", "spacemap evaluation on the data space"),
+    ("create_data_scs", "data state-choice space"),
+]), soft=True)
+soft_space = factory_rule("KERS.space", gen("state_space", [
+    ("create_state_choice_space", "space, space info, indexers, segments of one period"),
+]) + gen("discrete_problem", [("_determine_dense_discrete_choice_axes", "positions of the dense discrete choice axes")]), soft=True)
+soft_varinfo = factory_rule("KERS.varinfo", gen("input_processing.util", [
+    ("get_variable_info", "classification of variables and canonical order"),
+]), soft=True)
+soft_uandf = factory_rule("KERS.uandf", gen("model_functions", [
+    ("get_utility_and_feasibility_function", "u_and_f for last and non-last periods"),
+]), soft=True)
+soft_process = factory_rule("KERS.process", gen("input_processing.process_model", [
+    ("process_model", "internal model assembly"),
+    ("_get_internal_functions", "which wrapper for which kind of function; weight functions registered as weight_next_<state>"),
+]), soft=True)
